@@ -43,6 +43,9 @@ type adv struct {
 	Huge    bool   `json:"huge,omitempty"`
 	Net     string `json:"net,omitempty"` // "" | reset | partial | slow | slowbody
 	CkNames string `json:"-"`
+	// Shape, when set, describes the rest of the upstream's response (URL-bearing headers, framing,
+	// content headers, cookies, header volume, raw wire form): see shape_test.go.
+	Shape *shape `json:"shape,omitempty"`
 }
 
 func (a adv) encode() string {
@@ -62,6 +65,9 @@ func (a adv) encode() string {
 	if a.Net != "" {
 		v.Set("net", a.Net)
 	}
+	if a.Shape != nil {
+		v.Set("shape", a.Shape.encode())
+	}
 	return v.Encode()
 }
 
@@ -75,6 +81,9 @@ func decodeAdv(s string) (adv, bool) {
 	a.Mask, _ = strconv.Atoi(v.Get("mask"))
 	a.Pre, _ = strconv.Atoi(v.Get("pre"))
 	a.Cookie = a.CkNames != ""
+	if sh := v.Get("shape"); sh != "" {
+		a.Shape = decodeShape(sh)
+	}
 	return a, true
 }
 
@@ -134,6 +143,10 @@ func respondAdversarial(b *sut.Backend) func(http.ResponseWriter, *http.Request,
 		if !ok {
 			w.Header().Set("Content-Type", "text/plain")
 			fmt.Fprint(w, body)
+			return
+		}
+		if a.Shape != nil {
+			respondShaped(b, w, r, h, a)
 			return
 		}
 		switch a.Net {
